@@ -90,7 +90,7 @@ M = [
 			in[i] = val
 		}
 	}
-	return reflect.ValueOf(f).Call(in), nil""","""			val = inj.Value(argType)
+	if t.IsVariadic() {""","""			val = inj.Value(argType)
 			if !val.IsValid() {
 				val = reflect.Zero(argType)
 			}
@@ -98,7 +98,7 @@ M = [
 			in[i] = val
 		}
 	}
-	return reflect.ValueOf(f).Call(in), nil"""),
+	if t.IsVariadic() {"""),
  ("C04","fast-path-swaps-http-args","handler.go","invoke(args[0].(http.ResponseWriter), args[1].(*http.Request))","invoke(args[0].(http.ResponseWriter), args[1].(*http.Request).Clone(args[1].(*http.Request).Context()))"),
  ("C05","route-string-without-once","internal/route/definition.go","""func (r *Route) String() string {
 	r.strOnce.Do(func() {
@@ -215,11 +215,11 @@ M = [
 		}"""),
  ("C12","optional-always-rendered",L,"		if s.Optional && !withOptional {\n			break\n		}","		if s.Optional && !withOptional && len(vals) == 0 {\n			break\n		}"),
  ("C12","unknown-binds-rendered-empty",L,"	return strings.NewReplacer(pairs...).Replace(buf.String())","	out := strings.NewReplacer(pairs...).Replace(buf.String())\n	if withOptional {\n		out = regexp.MustCompile(`\\{[a-z]+\\}`).ReplaceAllString(out, \"\")\n	}\n	return out"),
- ("C13","status-stored-before-hooks","response_writer.go","""		w.callBefore()
-		w.ResponseWriter.WriteHeader(s)
-		atomic.StoreInt32(&w.status, int32(s))""","""		atomic.StoreInt32(&w.status, int32(s))
-		w.callBefore()
-		w.ResponseWriter.WriteHeader(s)"""),
+ ("C13","status-stored-before-hooks","response_writer.go","""	w.beforeOnce.Do(w.callBefore)
+	w.ResponseWriter.WriteHeader(s)
+	atomic.StoreInt32(&w.status, int32(s))""","""	atomic.StoreInt32(&w.status, int32(s))
+	w.beforeOnce.Do(w.callBefore)
+	w.ResponseWriter.WriteHeader(s)"""),
  ("C13","flush-without-implicit-header","response_writer.go","""func (w *responseWriter) Flush() {
 	if !w.Written() {
 		// The status will be StatusOK if WriteHeader has not been called yet.
